@@ -128,7 +128,7 @@ PLANS = {
                 "memrchr*_iter, iter() of every One/Two/Three. Enumerated: every match bitmap of haystacks up to 10 (12) bytes; generated: lengths "
                 "0..=1 KiB (4 KiB), sparse / clustered-inside-one-vector / dense layouts. Non-trivial: >= 2 matches of which two are less than "
                 "one vector apart (the two ends meet inside one vector on some explored history). Distinct by hash of (needles, haystack).",
-        "stages": iter_stages(),
+        "stages": iter_stages() + [huge_stage(NATIVE)],
     },
     "C07": {
         "rule": "count()/count_raw of every One implementation and Memchr::count against the naive count over the C01 enumeration "
